@@ -13,6 +13,7 @@
 package sched
 
 import (
+	"runtime"
 	"sync"
 	"time"
 
@@ -53,6 +54,8 @@ type Sched struct {
 	OnStep  func(task int)
 	Stuck   bool
 	active  bool
+	// BlockedN counts forced switches away from a task waiting for a lock
+	BlockedN int
 }
 
 // NewSeeded makes a scheduler that switches with probability 1/den at every yield.
@@ -120,6 +123,45 @@ func (s *Sched) Yield(site int) {
 	raceEnable()
 }
 
+// Blocked is called by a task that cannot proceed because a lock it needs is held by a
+// parked task (see cmd/yieldinst): the baton must go to somebody else. The forced switch
+// is recorded like any other, so explicit schedules replay it; where an explicit schedule
+// has no switch at this point (a shrunk schedule) the lowest-numbered other task runs.
+//
+//go:norace
+func (s *Sched) Blocked(site int) {
+	if !s.active {
+		runtime.Gosched()
+		return
+	}
+	s.count++
+	s.BlockedN++
+	to := -1
+	if s.explicit && s.swi < len(s.switches) && s.switches[s.swi].At == s.count {
+		to = s.switches[s.swi].To
+		s.swi++
+	}
+	if to < 0 || to >= len(s.tasks) || to == s.cur || s.tasks[to].done {
+		r := s.runnableOther()
+		if len(r) == 0 {
+			runtime.Gosched() // nobody else is left: the lock can only be freed by a real thread
+			return
+		}
+		if s.explicit {
+			to = r[0]
+		} else {
+			to = r[s.rng.Intn(len(r))]
+		}
+	}
+	s.Rec = append(s.Rec, Switch{At: s.count, To: to})
+	from := s.cur
+	s.cur = to
+	raceDisable()
+	s.tasks[to].wake <- struct{}{}
+	<-s.tasks[from].wake
+	raceEnable()
+}
+
 //go:norace
 func (s *Sched) finish(t *task) {
 	t.done = true
@@ -167,6 +209,9 @@ func (s *Sched) Run(fns []func(), first int, watchdog time.Duration) bool {
 	for _, t := range s.tasks {
 		t := t
 		go func() {
+			// every task is a caller thread of its own: a fresh OS thread that ends with the task
+			// (seam S7, see core/thread.go), not whichever thread the Go scheduler has at hand
+			runtime.LockOSThread()
 			raceDisable()
 			<-t.wake
 			raceEnable()
